@@ -19,6 +19,7 @@
   All checks are executable (`Bool`): the driver evaluates them on what the real code wrote.
 -/
 import ASV.Model.RegionExtract
+import ASV.Model.RegionAnnotations
 import ASV.Spec.Bases
 namespace ASV.RegionExtract
 open ASV
@@ -408,5 +409,28 @@ def regionFeatureOK (rd : RegionData) (rec : BioRecord) : Bool :=
     if rd.crossesOrigin then f.loc == .compound [⟨rd.start, L, .fwd⟩, ⟨0, rd.end, .fwd⟩]
     else f.loc == .simple ⟨rd.start, rd.end, .fwd⟩
   | _ => false
+
+/-! ### annotations of the region file -/
+
+/-- what the annotations of a region file must say, given what the full record's say: the same, with
+    NOTE / Orig. start / Orig. end set in the antiSMASH-Data comment (created, after the others, if missing) -/
+def expectedAnn (t : AnnTree) (rd : RegionData) : AnnTree :=
+  let notes := fun (d : List (String × String)) =>
+    setStr (setStr (setStr d "NOTE" (if wraps rd then noteCross else notePlain)) "Orig. start" (toString rd.start))
+      "Orig. end" (toString rd.end)
+  let m := t.sc.getD []
+  let m' := if m.any (·.1 == "antiSMASH-Data") then
+      m.map fun kv => if kv.1 == "antiSMASH-Data" then (kv.1, notes kv.2) else kv
+    else m ++ [("antiSMASH-Data", notes [])]
+  ⟨t.other, some m'⟩
+
+/-- a heap holding just the dicts of one annotation tree, and the address of its top dict -/
+def heapOfTree (t : AnnTree) : AHeap × Nat :=
+  match t.sc with
+  | none => alloc [] (.top t.other none)
+  | some m =>
+    let (h1, entries) := allocEntries [] m
+    let (h2, c) := alloc h1 (.comments entries)
+    alloc h2 (.top t.other (some c))
 
 end ASV.RegionExtract
